@@ -4,6 +4,7 @@ import (
 	"fmt"
 	"go/token"
 	"go/types"
+	"strings"
 
 	"golang.org/x/tools/go/ssa"
 
@@ -160,6 +161,37 @@ func c18(r *core.Report) {
 			}
 			r.Check(okAmt, "C18-COUNT-AMOUNT", c, p.Pos(st.Pos()), "count drops by the number of entries that one bucket call appended to its output", why+": Count() drifts from the number of entries held, and the cache exceeds or undershoots its capacity")
 		}
+	}
+
+	// ---- C18-INDEX-PURE: an entry is found again only if its bucket index is a function of (locus, key)
+	// alone: bucketIndex computes the distance in a buffer it allocates itself (zero beyond the shorter
+	// operand) and writes nothing that outlives the call
+	r.Rule("C18-INDEX-PURE", "bucketIndex computes the distance in a fresh local buffer and has no side effect on the cache", 1)
+	if bi := needFn(r, "p/kademlia", "Cache.bucketIndex"); bi != nil {
+		okPure := true
+		why := ""
+		for _, in := range core.AllInstrs(bi) {
+			switch x := in.(type) {
+			case *ssa.Store:
+				if core.CellOfAddr(x.Addr) == nil {
+					okPure, why = false, "bucketIndex stores to memory that outlives the call"
+				}
+			case *ssa.Call:
+				name := core.CalleeName(x.Common())
+				if strings.HasSuffix(name, ".XORBytes") || core.IsBuiltin(x.Common(), "copy") {
+					dst := core.Through(x.Call.Args[0])
+					if sl, ok := dst.(*ssa.Slice); ok {
+						dst = core.Through(sl.X)
+					}
+					if _, fresh := dst.(*ssa.MakeSlice); !fresh {
+						if _, arr := dst.(*ssa.Alloc); !arr {
+							okPure, why = false, "the distance is computed into a buffer that is not allocated by this call (a scratch buffer kept on the cache keeps the previous key's trailing bytes when the key is shorter than the locus, and is written under the read lock)"
+						}
+					}
+				}
+			}
+		}
+		r.Check(okPure, "C18-INDEX-PURE", core.FnName(bi), p.Pos(bi.Pos()), "the distance buffer is allocated per call; no store outlives the call", why+": the bucket index of a key depends on earlier operations, so an entry that was put can no longer be found, overwritten or deleted")
 	}
 
 	// ---- C18-VICTIM-NIL
